@@ -104,8 +104,16 @@ func (o *orch) runJob(j *job) {
 		return
 	}
 	c.Count("emulation_self_stable", 1)
+	held := true
 	for _, ts := range j.timing {
-		o.compareOn(j, e1.res, ts)
+		held = o.compareOn(j, e1.res, ts) && held
+	}
+	// probabilistic reproducers: alternates are tried while the probe holds
+	if held && len(j.alts) > 0 {
+		alt := *j
+		alt.prog, alt.alts = &j.alts[0], j.alts[1:]
+		alt.id = alt.prog.ID
+		o.runJob(&alt)
 	}
 	if j.prog != nil {
 		for _, f := range e1.res.Features {
@@ -189,14 +197,14 @@ func firstByteDiff(x, y BufDump) string {
 
 // compareOn runs the program on one timing platform and judges it against the
 // emulation result.
-func (o *orch) compareOn(j *job, emu *Result, ts PlatSpec) {
+func (o *orch) compareOn(j *job, emu *Result, ts PlatSpec) (held bool) {
 	c := o.c
 	t := o.runCase(j.caseFor(ts, false))
 	c.Count("timing_runs", 1)
 	c.Distinct("platform_variants", ts.Name)
 	if t.timeout {
 		o.inconclusive(j, "timing run on "+ts.Name+": watchdog fired")
-		return
+		return true
 	}
 	pk := j.pair.Arch + "/" + j.pair.GPU
 	diff := ""
@@ -207,7 +215,7 @@ func (o *orch) compareOn(j *job, emu *Result, ts PlatSpec) {
 		diff = "timing run deadlocked in phase " + t.res.Phase
 	case t.res.Error != "":
 		o.inconclusive(j, "timing child error: "+t.res.Error)
-		return
+		return true
 	default:
 		diff = diffResults(emu, t.res)
 	}
@@ -237,7 +245,7 @@ func (o *orch) compareOn(j *job, emu *Result, ts PlatSpec) {
 		}
 		c.Sample(map[string]any{"program": j.id, "platform": ts.Name, "wavefronts": len(emu.Wavefronts), "instructions": emu.Insts,
 			"buffers": len(emu.Buffers), "features": emu.Features})
-		return
+		return true
 	}
 	// ---- divergence: re-run both sides with full traces
 	c.Count("divergences", 1)
@@ -258,7 +266,7 @@ func (o *orch) compareOn(j *job, emu *Result, ts PlatSpec) {
 	if ts.Name != j.pair.Timing.Name {
 		variant = strings.TrimPrefix(ts.Name, j.pair.GPU+"/")
 	}
-	key, what := o.keyFor(j, ts, variant, diff, t, fd, wit, emu, ef.res, tf.res)
+	key, what := o.keyFor(j, ts, variant, diff, t, tf, fd, wit, emu, ef.res, tf.res)
 	c.Violation(key, what, wit)
 	// keep exploring: features / variants reproduced by the canonical battery
 	// are not used by seeded programs of this pair
@@ -276,6 +284,7 @@ func (o *orch) compareOn(j *job, emu *Result, ts PlatSpec) {
 		o.varOff[pk][ts.Name] = key
 	}
 	o.mu.Unlock()
+	return false
 }
 
 // firstDiv describes the first diverging instruction.
@@ -365,7 +374,11 @@ func locate(emu, tim *Result) firstDiv {
 				break
 			}
 			what, detail := "", ""
+			if e.Mem != "" && t.Mem != "" && e.Mem != t.Mem {
+				what, detail = memDiff(e, t)
+			}
 			switch {
+			case what != "":
 			case e.HDst != t.HDst:
 				what = "dst"
 				ev, tv := decodeRegs(e.Dst), decodeRegs(t.Dst)
@@ -407,7 +420,7 @@ func locate(emu, tim *Result) firstDiv {
 	return best
 }
 
-func (o *orch) keyFor(j *job, ts PlatSpec, variant, diff string, t runOut, fd firstDiv, wit map[string]any, emu, emuFull, timFull *Result) (string, string) {
+func (o *orch) keyFor(j *job, ts PlatSpec, variant, diff string, t, tfRun runOut, fd firstDiv, wit map[string]any, emu, emuFull, timFull *Result) (string, string) {
 	prefix := "C02|" + j.pair.Arch + "|" + j.pair.GPU
 	if variant != "" {
 		prefix += "|variant:" + variant
@@ -423,14 +436,24 @@ func (o *orch) keyFor(j *job, ts PlatSpec, variant, diff string, t runOut, fd fi
 			return prefix + "|workitem-id-not-packed",
 				"timing wavefront dispatcher (cu.WfDispatcherImpl.initRegisters) does not pack the work-item ids into v0 for code-object V5 kernels as emulation (emu.ComputeUnit.initWfRegs) does: " + fd.Detail
 		}
-		return prefix + "|initial-register|" + reg, "initial register " + reg + " of a wavefront differs between emulation and timing: " + fd.Detail
+		suffix := ""
+		if emu != nil {
+			for _, f := range emu.ABIFlags {
+				if f == "queue_ptr" || f == "private_segment_size" {
+					suffix += "|enable-sgpr-" + strings.ReplaceAll(f, "_", "-")
+				}
+			}
+		}
+		return prefix + "|initial-register|" + reg + suffix, "initial register " + reg + " of a wavefront differs between emulation and timing (code object flags: " + strings.Join(emu.ABIFlags, ",") + "): " + fd.Detail
 	}
 	if t.res == nil {
 		k := prefix + "|timing-crash|" + t.crash
 		w := "program runs in emulation and crashes the timing platform: " + t.crash
-		if fd.Found {
-			w += fmt.Sprintf(" (first instruction timing did not get through: %s %d %s in %s)", fd.Fmt, fd.Op, fd.Name, fd.Wf)
+		if len(tfRun.suspects) == 1 {
+			k += "|" + tfRun.suspects[0]
+			w += "; the only issued instruction whose opcode never completed anywhere: " + tfRun.suspects[0]
 		}
+		wit["instructions_in_flight_at_crash"] = tfRun.inflight
 		return k, w
 	}
 	if t.res.Deadlock {
@@ -441,7 +464,9 @@ func (o *orch) keyFor(j *job, ts PlatSpec, variant, diff string, t runOut, fd fi
 		return k, "program terminates in emulation and never finishes on the timing platform (engine idle, application waiting; phase " + t.res.Phase + ")"
 	}
 	if cl, det, ok := explainLoadDiff(emuFull, timFull, fd); ok {
-		k := fmt.Sprintf("%s|first-divergence|%s|%d|%s|loads-%s", prefix, fd.Fmt, fd.Op, fd.Name, cl)
+		k := fmt.Sprintf("%s|first-divergence|%s|%d|%s|returns-%s", prefix, fd.Fmt, fd.Op, fd.Name,
+			map[string]string{"older-store-survives": "value-of-an-older-store", "last-store-not-visible": "value-from-before-the-last-store",
+				"address-never-stored-to": "different-data-of-unwritten-address"}[cl])
 		return k, fmt.Sprintf("first diverging instruction: %s at pc 0x%x, instruction #%d of wavefront %s returns different data: %s [%s]", fd.Name, fd.PC, fd.Index, fd.Wf, det, diff)
 	}
 	if fd.Found {
@@ -641,4 +666,36 @@ func explainLoadDiff(emuFull, timFull *Result, fd firstDiv) (class, detail strin
 		}
 	}
 	return "", "", false
+}
+
+// memDiff compares the effective lane addresses (and store data) of a FLAT
+// access as computed under the emulation's and the timing model's rules.
+func memDiff(e, t *Ev) (string, string) {
+	ex, ea, ed := decodeMem(e.Mem)
+	tx, ta, td := decodeMem(t.Mem)
+	if ex != tx {
+		return "exec", fmt.Sprintf("EXEC at the access: emulation 0x%x, timing 0x%x", ex, tx)
+	}
+	for lane := 0; lane < 64; lane++ {
+		if ex&(1<<uint(lane)) == 0 {
+			continue
+		}
+		if ea[lane] != ta[lane] {
+			return "address", fmt.Sprintf("lane %d effective address: emulation 0x%x, timing 0x%x", lane, ea[lane], ta[lane])
+		}
+	}
+	if len(ed) == len(td) && len(ed) >= 64 {
+		n := len(ed) / 64
+		for lane := 0; lane < 64; lane++ {
+			if ex&(1<<uint(lane)) == 0 {
+				continue
+			}
+			for j := 0; j < n; j++ {
+				if ed[lane*n+j] != td[lane*n+j] {
+					return "store-data", fmt.Sprintf("lane %d dword %d to be stored: emulation 0x%08x, timing 0x%08x", lane, j, ed[lane*n+j], td[lane*n+j])
+				}
+			}
+		}
+	}
+	return "", ""
 }
